@@ -3,8 +3,9 @@ import Pandora.Spec.C03
 import Pandora.Model.C03Fine
 
 /-!
-C03 driver.  Input: `inst=<startup tokens> shared=<0|1> tokens=<n> ammo=<n|-1> discard=<0|1> …` (the other keys only
-steer the harness).  Observation of the real engine:
+C03 driver.  Input: `inst=<startup tokens> shared=<0|1> tokens=<n> ammo=<n|-1> discard=<0|1|absent> …` (the other keys only
+steer the harness; with `cfg=cli|yaml2` the pool is written as YAML text and decoded by the real config reader, `rpsy=` /
+`stay=` choose the spelling of the profile / the startup schedule — the expected behaviour does not depend on them).  Observation of the real engine:
 `res=ok exact=<tokens of one profile> started=<InstanceStart> finished=… req=… resp=… uar=<0|1> dbl=<0|1> relmin=… relmax=… log=<events>`
 with events `c<i>:<left>` (IsFinished saw Left()), `a<i>` / `e<i>` (Acquire ok / out of ammo), `n<i>` / `x<i>` (Next ok / finished),
 `s<i>:<k>` (Shoot of item k), `d<i>` (discarded sample reported), `r<i>:<k>` (Release of item k); `i` = instance in order
@@ -106,7 +107,9 @@ def poolOf (kv o : List (String × String)) (pools j : Nat) : Option PoolRes :=
     | some a => if a < 0 then none else some a.toNat
     | none => none
   let c : Cfg := { perInstance := inKey kv j "shared" == "0", tokens := (g "exact").toNat?.getD 0, ammo := ammo,
-                   discardOn := inKey kv j "discard" == "1",
+                   -- `discard=absent` (configs written as text, `cfg=`): the key is left out; `cli.readConfig` then says
+                   -- true, the plain decoder keeps the zero value
+                   discardOn := inKey kv j "discard" == "1" || (inKey kv j "discard" == "absent" && getS kv "cfg" == "cli"),
                    instances := (g "cap").toNat?.getD ((inKey kv j "inst").toNat?.getD 0) }
   let fine := getS kv "fine" == "1"
   match (splitList (g "log")).mapM (fun t => (parseObs t).map (·, t)) with
@@ -138,6 +141,8 @@ def poolOf (kv o : List (String × String)) (pools j : Nat) : Option PoolRes :=
 def handle : Handler := fun input impl =>
   let kv := parseKV input
   let o := parseKV impl
+  if impl.startsWith "CRASH DATA_RACE" then
+    ("-", s!"fail:race:the race detector stopped the engine (operations that the model takes as atomic / ordered are not): {impl.take 300}") else
   if impl.startsWith "CRASH" || impl.startsWith "HANG" || impl.startsWith "PANIC" then
     ("-", s!"fail:crash:the engine did not end: {impl.take 200}") else
   if getS o "res" == "noinstr" then ("-", s!"skip:no-instrumented-worker:{getS o "why"}") else
@@ -165,6 +170,8 @@ def handle : Handler := fun input impl =>
                           else s!"fail:abnormal-end:runaway, the pool does not end ({getS o "started"} instances)") else
     -- fine logs are only in operation order while the controller let one instance run at a time
     if getS kv "fine" == "1" && getS o "partial" != "0" then ("-", v) else
+    -- race-detector runs (`race=1`): the operations were performed outside the recorder's mutex, the log is only counted
+    if getS kv "race" == "1" then ("-", v) else
     match prs.findSome? (·.err) with
     | some e => (e, v)
     | none =>
